@@ -513,6 +513,7 @@ package bbolt
 
 //@ func DB.openFile
 //@   trusted
+//@   params (path, flag, mode)
 //@   returns (f, err)
 //@   ensures lastopenflag == flag && (err == nil ==> f != nil && fresh(f))
 //@   modifies lastopenflag
@@ -540,7 +541,7 @@ package bbolt
 //@ func Open
 //@   returns (db, err)
 //@   props C17 C11 C13
-//@   requires options != nil && options.PageSize >= 0 && options.PageSize <= 16777216 && options.InitialMmapSize >= 0
+//@   requires options != nil && (options.PageSize == 0 || options.PageSize >= 512) && options.PageSize <= 16777216 && options.InitialMmapSize >= 0 && common.DefaultPageSize >= 512 && common.DefaultPageSize <= 16777216
 //@   callback ensures true
 //@   ensures [flagro] options.ReadOnly ==> lastopenflag == 0 || calls("DB.openFile", 0) == old(calls("DB.openFile", 0))     -- O_RDONLY, no O_CREATE
 //@   ensures [flagrw] !options.ReadOnly && err == nil ==> lastopenflag == 66                                               -- O_RDWR|O_CREATE
@@ -556,3 +557,53 @@ package bbolt
 //@   skip pre/hasSyncedFreelist because see pre/loadFreelist
 //@   skip pre/meta because see pre/loadFreelist
 //@   skip nopanic@hasSyncedFreelist because see pre/loadFreelist
+
+// user-supplied loggers touch no database state (A-lib-pure)
+//@ func Logger.Debug
+//@   trusted
+//@   modifies nothing
+
+//@ func Logger.Debugf
+//@   trusted
+//@   modifies nothing
+
+//@ func Logger.Error
+//@   trusted
+//@   modifies nothing
+
+//@ func Logger.Errorf
+//@   trusted
+//@   modifies nothing
+
+//@ func Logger.Info
+//@   trusted
+//@   modifies nothing
+
+//@ func Logger.Infof
+//@   trusted
+//@   modifies nothing
+
+//@ func Logger.Warning
+//@   trusted
+//@   modifies nothing
+
+//@ func Logger.Warningf
+//@   trusted
+//@   modifies nothing
+
+//@ func Logger.Fatal
+//@   trusted
+//@   modifies nothing
+
+//@ func Logger.Fatalf
+//@   trusted
+//@   modifies nothing
+
+//@ func Logger.Panic
+//@   trusted
+//@   modifies nothing
+
+//@ func Logger.Panicf
+//@   trusted
+//@   modifies nothing
+
